@@ -267,6 +267,14 @@ class Escape:
             for n in walk_no_nested(e):
                 if isinstance(n, ast.Call):
                     self._merge(out, self.call(n, ctx))
+                elif isinstance(n, ast.BinOp) and isinstance(n.op, ast.Mod) and isinstance(n.left, ast.Constant) and isinstance(n.left.value, str):
+                    # "...%s:%d" % x with x not written as a tuple: the number (and kind) of values is whatever x happens to be at run time
+                    import re as _re
+                    specs = _re.findall(r"%(?!%)[#0\- +]*(?:\*|\d+)?(?:\.(?:\*|\d+))?[diouxXeEfFgGcrsa]", n.left.value)
+                    if len(specs) >= 2 and not isinstance(n.right, (ast.Tuple, ast.Dict)):
+                        f = ctx["f"]
+                        out.setdefault(("builtins.TypeError", "fmt@%s:%s" % (f.qualname, n.left.value[:30])),
+                                       ("%s %s: %%-format with %d conversions applied to `%s`, which is not a tuple display" % (f.loc(n), f.name, len(specs), ast.unparse(n.right)),))
         return out
 
     def handler_classes(self, h, f):
